@@ -167,7 +167,81 @@ def _const_dispatch(self, fn, call, sn):
 _SelfPassing._const_dispatch = _const_dispatch
 
 
-def _fold_names(node, sn):
+def _unroll_name_loops(node, literal_of):
+    """`for name in ("u_cells", "v_cells", ..): .. getattr(self, name) ..`: a loop over a literal table of strings (local literal or module-level
+    constant) whose variable is used to compute attribute names is written out, one copy of the body per entry with the entry in place of
+    the variable — after which the names fold to literals.  Loops with break / continue / else, or re-binding their variable, are left."""
+    def seq_of(e):
+        if isinstance(e, ast.Name) and literal_of is not None:
+            e = literal_of(e.id) or e
+        if isinstance(e, (ast.Tuple, ast.List)) and 0 < len(e.elts) <= 12 and all(isinstance(x, ast.Constant) and isinstance(x.value, str) for x in e.elts):
+            return [x.value for x in e.elts]
+        return None
+
+    def names_attrs(body, var):
+        for st in body:
+            for c in ast.walk(st):
+                if isinstance(c, ast.Call) and isinstance(c.func, ast.Name) and c.func.id in ("getattr", "setattr", "delattr", "hasattr") and len(c.args) >= 2 \
+                        and any(isinstance(x, ast.Name) and x.id == var for x in ast.walk(c.args[1])):
+                    return True
+        return False
+
+    def block(stmts):
+        out = []
+        for st in stmts:
+            for fld in ("body", "orelse", "finalbody"):
+                blk = getattr(st, fld, None)
+                if isinstance(blk, list) and blk and isinstance(blk[0], ast.stmt):
+                    setattr(st, fld, block(blk))
+            for h in getattr(st, "handlers", []) or []:
+                h.body = block(h.body)
+            if isinstance(st, ast.For) and isinstance(st.target, ast.Name) and not st.orelse:
+                var = st.target.id
+                vals = seq_of(st.iter)
+                jumps = any(isinstance(x, (ast.Break, ast.Continue)) for b in st.body for x in ast.walk(b))
+                rebinds = any(isinstance(x, ast.Name) and x.id == var and isinstance(x.ctx, (ast.Store, ast.Del)) for b in st.body for x in ast.walk(b))
+                if vals is not None and not jumps and not rebinds and names_attrs(st.body, var):
+                    for val in vals:
+                        class S(ast.NodeTransformer):
+                            def visit_Name(self, n, val=val):
+                                return ast.copy_location(ast.Constant(value=val), n) if n.id == var and isinstance(n.ctx, ast.Load) else n
+
+                        out += [S().visit(copy.deepcopy(b)) for b in st.body]
+                    continue
+            out.append(st)
+        return out
+
+    node.body = block(node.body)
+
+    class Comp(ast.NodeTransformer):
+        """[.. getattr(self, name) .. for name in TABLE] -> the display with one element per entry"""
+
+        def _written_out(self, n):
+            self.generic_visit(n)
+            if len(n.generators) != 1 or n.generators[0].ifs or n.generators[0].is_async or not isinstance(n.generators[0].target, ast.Name):
+                return n
+            var = n.generators[0].target.id
+            vals = seq_of(n.generators[0].iter)
+            if vals is None or not names_attrs([ast.Expr(value=n.elt)], var):
+                return n
+            elts = []
+            for val in vals:
+                class S(ast.NodeTransformer):
+                    def visit_Name(self, m, val=val):
+                        return ast.copy_location(ast.Constant(value=val), m) if m.id == var and isinstance(m.ctx, ast.Load) else m
+
+                elts.append(S().visit(copy.deepcopy(n.elt)))
+            return ast.copy_location((ast.List if isinstance(n, ast.ListComp) else ast.Tuple)(elts=elts, ctx=ast.Load()), n)
+
+        visit_ListComp = _written_out
+        visit_GeneratorExp = _written_out
+
+    node = Comp().visit(node)
+    ast.fix_missing_locations(node)
+    return node
+
+
+def _fold_names(node, sn, table_of=None):
     """Literal propagation for computed attribute names: locals bound once to a string literal are replaced by it, f-strings / `+` of
     literals become literals, and `setattr(self, "<name>", v)` / `getattr(self, "<name>")` with a literal identifier become `self.<name> = v` /
     `self.<name>`."""
@@ -194,6 +268,20 @@ def _fold_names(node, sn):
                         return n
                 changed[0] = True
                 return ast.copy_location(ast.Constant(value="".join(parts)), n)
+
+            def visit_Subscript(self, n):
+                # an entry of a literal table (local, or a module-level constant of the helper's module) selected by a literal key
+                self.generic_visit(n)
+                if isinstance(n.ctx, ast.Load) and isinstance(n.slice, ast.Constant):
+                    tbl = n.value
+                    if isinstance(tbl, ast.Name) and table_of is not None:
+                        tbl = table_of(tbl.id) or tbl
+                    if isinstance(tbl, ast.Dict):
+                        for k, v in zip(tbl.keys, tbl.values):
+                            if isinstance(k, ast.Constant) and k.value == n.slice.value and isinstance(v, ast.Constant) and isinstance(v.value, str):
+                                changed[0] = True
+                                return ast.copy_location(ast.Constant(value=v.value), n)
+                return n
 
             def visit_BinOp(self, n):
                 self.generic_visit(n)
@@ -274,7 +362,20 @@ def canonical(fn):
                     return True  # maybe a literal handed to a helper that computes field names from it
         return False
 
-    node = copy.deepcopy(fn.node)
+    def table_of(name):
+        """literal dict bound to a module-level name, looked up in the function's module and in the modules of the classes its class derives
+        from (an expanded helper of a base class names the constants of its module)"""
+        if _EXPANDER[0] is None or name in bound_here:
+            return None
+        mods = [fn.module] + [c.module for c in (fn.cls.mro if fn.cls is not None else []) if not isinstance(c, str) and c.module is not None]
+        for mod in mods:
+            r = _EXPANDER[0].p.resolve_name(mod, name)
+            if r and r[0] == "assign" and isinstance(r[1][1], (ast.Dict, ast.Tuple, ast.List)):
+                return r[1][1]
+        return None
+
+    bound_here = {x.id for x in ast.walk(fn.node) if isinstance(x, ast.Name) and isinstance(x.ctx, (ast.Store, ast.Del))} | set(fn.params)
+    node = _unroll_name_loops(copy.deepcopy(fn.node), table_of)
     for _round in range(3):  # a helper handing the object on to another helper: one level per round, the parameter un-aliased in between
         if _EXPANDER[0] is None or not passes_self(node):
             break
@@ -283,11 +384,11 @@ def canonical(fn):
             new = _EXPANDER[0].view(replace(fn, node=node), inline=True, consts=False).node
         except Exception:  # an expansion that cannot be done leaves the function as it is
             break
-        new = _fold_names(_unalias_self(new, sn), sn)
+        new = _fold_names(_unalias_self(_unroll_name_loops(new, table_of), sn), sn, table_of)
         if ast.dump(new) == ast.dump(node):
             break
         node = new
-    node = _fold_names(_unalias_self(node, sn), sn)
+    node = _fold_names(_unalias_self(node, sn), sn, table_of)
     node.body = _block(node.body, sn)
     ast.fix_missing_locations(node)
     new = replace(fn, node=node)
